@@ -219,23 +219,60 @@ func ruleI3(p *Prog, r *Report) {
 		}
 		n++
 		name := p.Name(top)
+		// private validation helpers that are handed start and end: their parameters stand for the same quantities
+		alias := map[ssa.Value]*ssa.Parameter{} // helper parameter -> start / end
+		var helpers []*ssa.Function
+		helperCall := map[*ssa.Call]*ssa.Function{}
+		eachInstr(top, func(in ssa.Instruction) {
+			c, ok := in.(*ssa.Call)
+			if !ok {
+				return
+			}
+			g := c.Call.StaticCallee()
+			if g == nil || g.Pkg != p.RootSSA || g.Object() == nil || g.Object().Exported() || len(g.Blocks) == 0 || !lastResultIsError(g) {
+				return
+			}
+			gotS, gotE := false, false
+			for i, a := range c.Call.Args {
+				if i >= len(g.Params) {
+					break
+				}
+				switch canonConv(a) {
+				case ssa.Value(start):
+					alias[g.Params[i]] = start
+					gotS = true
+				case ssa.Value(end):
+					alias[g.Params[i]] = end
+					gotE = true
+				}
+			}
+			if gotS && gotE {
+				helpers = append(helpers, g)
+				helperCall[c] = g
+			}
+		})
 		has := func(ctor string, cond func(bo *ssa.BinOp) bool) bool {
 			found := false
-			eachInstr(top, func(in ssa.Instruction) {
-				c, ok := in.(*ssa.Call)
-				if !ok || c.Call.StaticCallee() == nil || c.Call.StaticCallee().Name() != ctor {
-					return
-				}
-				if controlDependsOnValue(top, in.Block(), func(v ssa.Value) bool {
-					bo, ok := v.(*ssa.BinOp)
-					return ok && cond(bo)
-				}) {
-					found = true
-				}
-			})
+			for _, hf := range append([]*ssa.Function{top}, helpers...) {
+				eachInstr(hf, func(in ssa.Instruction) {
+					c, ok := in.(*ssa.Call)
+					if !ok || c.Call.StaticCallee() == nil || c.Call.StaticCallee().Name() != ctor {
+						return
+					}
+					if controlDependsOnValue(hf, in.Block(), func(v ssa.Value) bool {
+						bo, ok := v.(*ssa.BinOp)
+						return ok && cond(bo)
+					}) {
+						found = true
+					}
+				})
+			}
 			return found
 		}
-		isP := func(v ssa.Value, prm *ssa.Parameter) bool { return canonConv(v) == ssa.Value(prm) }
+		isP := func(v ssa.Value, prm *ssa.Parameter) bool {
+			v = canonConv(v)
+			return v == ssa.Value(prm) || alias[v] == prm
+		}
 		isCount := func(v ssa.Value) bool {
 			c, ok := canonConv(v).(*ssa.Call)
 			return ok && calleeName(c) == "Count"
@@ -264,16 +301,28 @@ func ruleI3(p *Prog, r *Report) {
 						val := func(v ssa.Value) (int, bool) {
 							v = canonConv(v)
 							switch {
-							case v == ssa.Value(start):
+							case v == ssa.Value(start) || alias[v] == start:
 								return sv, true
-							case v == ssa.Value(end):
+							case v == ssa.Value(end) || alias[v] == end:
 								return ev, true
 							case isCount(v):
 								return cv, true
 							}
 							return 0, false
 						}
-						succ, _ := orderReach(top, val)
+						errEval := func(e ssa.Value) (bool, bool, bool) {
+							e = canon(e)
+							if ex, ok := e.(*ssa.Extract); ok {
+								e = ex.Tuple
+							}
+							c, ok := e.(*ssa.Call)
+							if !ok || helperCall[c] == nil {
+								return false, false, false
+							}
+							hs, hf := orderReach(helperCall[c], val)
+							return hs, hf, true
+						}
+						succ, _ := orderReachE(top, val, errEval)
 						valid := sv <= ev && ev <= cv
 						if valid && !succ {
 							bad = fmt.Sprintf("the valid range start=%d end=%d count=%d is rejected", sv, ev, cv)
@@ -352,6 +401,12 @@ func ruleI4(p *Prog, r *Report) {
 // orderReach walks f's CFG deciding every branch whose condition compares two values known to `val`
 // (other branches are followed both ways) and reports whether a success return / an error return is reachable.
 func orderReach(f *ssa.Function, val func(ssa.Value) (int, bool)) (success, failure bool) {
+	return orderReachE(f, val, nil)
+}
+
+// orderReachE: as orderReach; errEval decides tests of an error value that a private validation helper returned
+// (can it be nil / non-nil under the valuation), so that a validation moved into a helper is followed.
+func orderReachE(f *ssa.Function, val func(ssa.Value) (int, bool), errEval func(ev ssa.Value) (canNil, canNonNil, known bool)) (success, failure bool) {
 	seen := map[*ssa.BasicBlock]bool{}
 	var walk func(b *ssa.BasicBlock)
 	walk = func(b *ssa.BasicBlock) {
@@ -362,13 +417,38 @@ func orderReach(f *ssa.Function, val func(ssa.Value) (int, bool)) (success, fail
 		last := b.Instrs[len(b.Instrs)-1]
 		switch x := last.(type) {
 		case *ssa.Return:
-			if cl, _ := classifyReturn(x); cl == retError {
+			if cl, rv := classifyReturn(x); cl == retError {
 				failure = true
+			} else if cl == retPropagate && errEval != nil && rv != nil {
+				// the helper's error handed on as it is
+				if cn, cnn, known := errEval(rv); known {
+					if cn {
+						success = true
+					}
+					if cnn {
+						failure = true
+					}
+				} else {
+					success = true
+				}
 			} else {
 				success = true
 			}
 			return
 		case *ssa.If:
+			if errEval != nil {
+				if ev, nn, ok := errTestOf(x); ok {
+					if cn, cnn, known := errEval(ev); known {
+						if cnn {
+							walk(b.Succs[nn])
+						}
+						if cn {
+							walk(b.Succs[1-nn])
+						}
+						return
+					}
+				}
+			}
 			if bo, ok := x.Cond.(*ssa.BinOp); ok {
 				a, ok1 := val(bo.X)
 				c, ok2 := val(bo.Y)
